@@ -186,7 +186,7 @@ impl Prop for C16Prop {
         "C16"
     }
     fn rule(&self) -> String {
-        "Cases are call histories: 200..1000 (quick) / up to 5000 (thorough) calls (evaluator, expression, placeholder) drawn from a per-history dictionary of 12..60 expressions (well-formed with and without @, error-producing, malformed for the parser and for the lexer (1.2.3, 1..5, stray characters), aggregates around failing arguments and around nested aggregates, whitespace of several kinds sprinkled into a third of the entries, non-ASCII spellings (π, ², ³) in a quarter, long aggregate lists with equal values in different spellings, one call in six followed by a same-length sibling of its text (one character changed near the end) under the same placeholder, plus 1..3 argument sweeps: one function - Lambert W weighted - at 3..6 nearby arguments) so that keys repeat, each reused with changing placeholders and interleaved across all five evaluators; the whole history is one generated value (a choice sequence) and shrinks as one. Oracle (no-state model): every occurrence of a key must return, bit for bit, the outcome of its isolated first-time evaluation, computed by a fresh child process making exactly that one call. The history is run sequentially in-process, then replayed concurrently by 16 threads each starting at a different rotation, then every thread evaluates the deepest inputs 256 characters allow at the same time as the others (process-wide counters), then hammers one expression with different placeholders. One call in five is followed by an immediate repeat of the same expression with a placeholder pair that compares equal but differs (0.0/-0.0, 2/2.00, Integer 3/Float 3.0). Sub-check cold-start: a fresh child process starts 16 threads that make the same call as their very first one at the same moment (every lazily initialised table or cache is raced exactly once per process) and then the other cold-start expressions in rotated order; every outcome must be the isolated one. Sub-check after-failures: for every evaluator, every kind of failing call (lexer, parser, evaluation error under every operator and function form) is made 1100 times in a row and a set of plain expressions must then answer as in a fresh process. non-trivial = an occurrence whose expression occurred earlier in the history with a different placeholder or evaluator, or that directly follows an Err-producing call; distinct by (key, predecessor key). evaluations counts library calls (sequential + concurrent + child processes).".into()
+        "Cases are call histories: 200..1000 (quick) / up to 5000 (thorough) calls (evaluator, expression, placeholder) drawn from a per-history dictionary of 12..60 expressions (well-formed with and without @, error-producing, malformed for the parser and for the lexer (1.2.3, 1..5, stray characters), aggregates around failing arguments and around nested aggregates, whitespace of several kinds sprinkled into a third of the entries, non-ASCII spellings (π, ², ³) in a quarter, long aggregate lists with equal values in different spellings, one call in ten followed by a run of 3..7 different functions (W, factorial, exp, ln, sqrt, sin …) at the same or adjacent arguments in one evaluator, one call in six followed by a same-length sibling of its text (one character changed near the end) under the same placeholder, plus 1..3 argument sweeps: one function - Lambert W weighted - at 3..6 nearby arguments) so that keys repeat, each reused with changing placeholders and interleaved across all five evaluators; the whole history is one generated value (a choice sequence) and shrinks as one. Oracle (no-state model): every occurrence of a key must return, bit for bit, the outcome of its isolated first-time evaluation, computed by a fresh child process making exactly that one call. The history is run sequentially in-process, then replayed concurrently by 16 threads each starting at a different rotation, then every thread evaluates the deepest inputs 256 characters allow at the same time as the others (process-wide counters), then hammers one expression with different placeholders. One call in five is followed by an immediate repeat of the same expression with a placeholder pair that compares equal but differs (0.0/-0.0, 2/2.00, Integer 3/Float 3.0). Sub-check cold-start: a fresh child process starts 16 threads that make the same call as their very first one at the same moment (every lazily initialised table or cache is raced exactly once per process) and then the other cold-start expressions in rotated order; every outcome must be the isolated one. Sub-check after-failures: for every evaluator, every kind of failing call (lexer, parser, evaluation error under every operator and function form) is made 1100 times in a row and a set of plain expressions must then answer as in a fresh process. non-trivial = an occurrence whose expression occurred earlier in the history with a different placeholder or evaluator, or that directly follows an Err-producing call; distinct by (key, predecessor key). evaluations counts library calls (sequential + concurrent + child processes).".into()
     }
     fn assumptions(&self) -> Vec<String> {
         vec!["thread interleavings are whatever the OS produces under 16-way contention (not enumerated): the crate uses no synchronisation primitive a schedule explorer could intercept".into()]
@@ -245,6 +245,29 @@ impl Prop for C16Prop {
                     let sib: String = cs.into_iter().collect();
                     hist.push(format!("{}|{}|{}", ev.name(), ph.enc(), sib));
                     hist.push(format!("{}|{}|{}", ev.name(), ph.enc(), ex));
+                }
+            }
+            if c.below(10) == 0 {
+                // a run of *different* functions at the same or adjacent arguments, back to back in one evaluator (memo slots
+                // shared between functions, keyed by the argument only)
+                let ev2 = [Ev::F64, Ev::Num, Ev::Dec, Ev::Cpx][c.below(4) as usize];
+                let (lo, mid, hi) = [("1.5", "2.5", "3.5"), ("0.25", "1.25", "2.25"), ("-0.75", "0.25", "1.25"), ("0.5", "1.5", "2.5"), ("2", "3", "4"), ("6.25", "7.25", "8.25"), ("0.50", "1.50", "2.50")][c.below(7) as usize];
+                let mut forms: Vec<String> = Vec::new();
+                for a in [lo, mid, hi] {
+                    let a = if a.starts_with('-') { format!("({})", a) } else { a.to_string() };
+                    for f in ["w", "lambert_w", "exp", "ln", "sqrt", "sin", "cos", "abs", "exp2", "tan"] {
+                        if vocab::func(ev2, f).is_some() {
+                            forms.push(format!("{}({})", f, a));
+                        }
+                    }
+                    if vocab::has_fact(ev2) {
+                        forms.push(format!("{}!", a));
+                    }
+                }
+                let ph2 = &ph_pool(ev2)[(c.below(6) as usize * 5) % ph_pool(ev2).len()];
+                for _ in 0..(3 + c.below(5)) {
+                    let f = &forms[c.below(forms.len() as u32) as usize];
+                    hist.push(format!("{}|{}|{}", ev2.name(), ph2.enc(), f));
                 }
             }
             if c.below(5) == 4 {
